@@ -281,7 +281,8 @@ func taLog(r *rng, maxRows int, s *sink) string {
 	comment := func() {
 		switch r.intn(8) {
 		case 0:
-			b.WriteString("# Vehicle: " + pick(r, []string{"2019 McLaren 720S", " spaced  ", "", "A:B:C", "Ünïcode ✓"}) + eol)
+			// (the blank after the colon is optional, before it is part of the key's trimming)
+			b.WriteString("# Vehicle:" + pick(r, []string{" ", " ", "", "  "}) + pick(r, []string{"2019 McLaren 720S", " spaced  ", "", "A:B:C", "Ünïcode ✓"}) + eol)
 		case 1:
 			fmt.Fprintf(&b, "# End Point: %s, %s  @ %s deg%s", taFloat(r), taFloat(r), taFloat(r), eol)
 		case 2:
@@ -291,7 +292,7 @@ func taLog(r *rng, maxRows int, s *sink) string {
 		case 4:
 			b.WriteString("# OBD Mode: BLE; ID: \"OBDII  v2.2\"" + eol)
 		case 5:
-			b.WriteString("# Device Free Space: " + fmt.Sprint(r.intn(99999)) + " MB" + eol)
+			b.WriteString("# Device Free Space:" + pick(r, []string{" ", "", "\t"}) + fmt.Sprint(r.intn(99999)) + " MB" + eol)
 		case 6:
 			b.WriteString("# GPS: second value" + eol)
 		default:
@@ -326,7 +327,7 @@ func taLog(r *rng, maxRows int, s *sink) string {
 		}
 		b.WriteString(strings.Join(vals, ",") + eol)
 		if r.chance(1, 5) {
-			fmt.Fprintf(&b, "# Lap %d: %02d:%02d:%02d.%03d%s", lapNo, r.intn(2), r.intn(60), r.intn(60), r.intn(1000), eol)
+			fmt.Fprintf(&b, "# Lap %d:%s%02d:%02d:%02d.%03d%s", lapNo, pick(r, []string{" ", " ", " ", ""}), r.intn(2), r.intn(60), r.intn(60), r.intn(1000), eol)
 			lapNo += 1 + r.intn(2)/1*boolInt(r.chance(1, 8))
 			if r.chance(1, 12) {
 				// a marker that repeats or goes below the laps already closed: must be rejected
